@@ -133,11 +133,15 @@ def suite_eval(ctx, case):
         except Exception as e:
             ctor = 'raised:' + type(e).__name__; lpmin = None
         mc = drv.ask('koyama.ctor %s %s %s' % (f2h(p['sigma']), f2h(p['l']), f2h(p['lp']))).split()
-        edge = lpmin is not None and abs(p['lp'] - lpmin) <= 1e-12 * lpmin
+        lpmin_py = 4.0 * p['l'] ** 3 / (4.0 * p['l'] ** 2 - p['sigma'] ** 2) if p['l'] > p['sigma'] / 2.0 else None
+        # lp equal to lp_min to within rounding: which side of the strict comparison it falls on is rounding, not the property
+        edge = (lpmin is not None and abs(p['lp'] - lpmin) <= 1e-12 * lpmin) or (lpmin_py is not None and abs(p['lp'] - lpmin_py) <= 1e-12 * lpmin_py)
         if not edge:
             ctx.corr('eval', case, mc[0], ctor, what='DiscreteKoyama constructor accepts / ValueError')
         want = (p['l'] > p['sigma'] / 2.0) and (p['lp'] >= 4.0 * p['l'] ** 3 / (4.0 * p['l'] ** 2 - p['sigma'] ** 2) * (1 - 1e-12))
         ctx.pred('eval', case, (ctor == 'true') == want or edge, 'DiscreteKoyama(sigma=%r, l=%r, lp=%r): constructor outcome %s' % (p['sigma'], p['l'], p['lp'], ctor), key='C11:koyama-reject')
+        if ctor != 'true' and not case.get('invalid'):
+            ctx.dist['koyama:rejected-at-the-rounding-edge' if edge else 'koyama:rejected'] += 1; return
         if case.get('invalid'):
             try:
                 make(); r = 'accepted'
@@ -152,6 +156,15 @@ def suite_eval(ctx, case):
             sib = O.DiscreteKoyama(sigma=p['sigma'] * case['sibling'], l=p['l'], length=N, lp=p['lp'])
             sib.calculate(k[:4].copy())
         o = make()
+        # which branch computed the bending energy: the linearisation is only for (lp - lp_min)/lp_min < 0.001 (a RELATIVE distance: the same
+        # chain described in other units of length must take the same branch)
+        lin_eps = 6.0 * (o.cos0 - 1.0 - 2.0 * o.cos1) / (1.0 + o.cos0) ** 2
+        impl_lin = abs(o.epsilon - lin_eps) <= 1e-13 * max(1.0, abs(lin_eps))
+        rel = (p['lp'] - lpmin_py) / lpmin_py
+        if abs(rel - 0.001) > 1e-9 and not edge:
+            ctx.corr('eval', case, mc[1], 'true' if impl_lin else 'false', what='DiscreteKoyama: linearised bending energy used iff (lp - lp_min)/lp_min < 0.001')
+            ctx.pred('eval', case, impl_lin == (rel < 0.001), 'DiscreteKoyama(sigma=%r, l=%r, lp=%r): (lp-lp_min)/lp_min = %.4g but the %s bending energy is used' %
+                     (p['sigma'], p['l'], p['lp'], rel, 'linearised' if impl_lin else 'solved'), key='C11:koyama-pair-sum')
         val = np.array(o.calculate(k.copy()), dtype=float)
         B = []; A = []; w = []
         for n in range(1, N):
@@ -229,8 +242,11 @@ def gen_case(rng, maxL, maxN, tier):
         else:
             l = sigma * rng.uniform(0.75, 1.5); lpmin = (4 * l ** 3) / (4 * l ** 2 - sigma ** 2)
             lp = lpmin * rng.choice([1.0, 1.0005, rng.uniform(1.002, 1.5), rng.uniform(1.5, 4.0)])
+        # other units of length (nm vs angstrom vs m): sigma, l, lp scale together and k inversely; omega(k sigma) must not care
+        u = rng.choice([1.0, 1.0, 1.0, 1e-3, 2e-3, 1e-2, 1e3, 50.0])
+        sigma, l, lp = sigma * u, l * u, lp * u
         c['N'] = rng.choice([2, 3, 5, 10, rng.randint(2, 40 if tier == 'quick' else 60)]); c['p'] = {'sigma': sigma, 'l': l, 'lp': lp}
-        c['k'] = c['k'][:24]
+        c['k'] = [x / u for x in c['k'][:24]]
         if not c.get('invalid') and rng.random() < 0.4: c['sibling'] = rng.choice([0.9, 0.8, 0.95])
     elif cls in ('NonOverlappingFreelyJointedChain', 'NFJC'):
         c['N'] = rng.choice([2, 3, 4, 6, rng.randint(2, 12 if tier == 'quick' else 30)]); c['k'] = c['k'][:16]
